@@ -36,6 +36,7 @@ ACCS = [
     ('append', 'emptylist', 't_wrap'),
     ('append_nested', 'nested', 't_wrap'),
     ('dictcount', 'emptydict', 't_wrap'),
+    ('nullable', 'tup100', 't_wrap'),     # accumulator returns None on value 2 although the seed is not None: None is a stored value, not 'not set'
     ('mulsign', '1.0', 't_neg'),          # float state through 0.0 and -0.0 (values 0,1,2 -> factors -1,0,1)
 ]
 DERIVED = [
